@@ -17,7 +17,8 @@ import GoldModel.Lemmas.ProgRoundTrip
   `func Name [(…)] return T [modifiers] … endfunc` (modifiers `private`, `protected`, `final`, `override`; with
   `forward` or `external "lib"` the method has NO body), `const c = literal [multiLang]`,
   `[memory] f : T [private|…]* [absolute x]`, `class aName [(aParent)]`, `module aName`, `uses a, b, …`,
-  `type aName : T`;
+  `type aName : T`; an annotation `[ … ]` may precede `class`, `module`, `type` and field declarations (it leaves no
+  trace in their trees) or stand on its own before a declaration that does not take it;
 * types `T` — `Name`, `Name(n)`, `refTo|listOf [[opt, …]] Name [inverse x]`, `lit to lit`, `[Name]`, `.Name`,
   `array|sequence [Name | lit to lit] [[…]] of Name`, `instanceOf Name`, enumerations `( a, b = 1, … )` and sums
   `A + ( … ) + B` of names and enumerations (these forms in parameters and record fields), and in variables, fields and
@@ -65,10 +66,11 @@ theorem block_roundtrip (ks : List Kind) (self : Nat) (hΓ : Γ self = untilStop
     ∃ f, runP Γ Δ f (.ref self) (Stmts.toks X ss ++ endT :: k) = (.ok k (loopVal (Stmts.trees X ss) (.leaf endT)), []) :=
   until_loop X ks self hΓ hks ss h (stmts_rt X hX ss h) endT he k
 
-/-- **one declaration** at file level, before the end of the file or another declaration -/
-theorem decl_roundtrip (d : Decl ε) (h : d.WF X) (k : List Tok) (hk : TStop k) :
+/-- **one declaration** at file level, before the end of the file or another declaration (an annotation on its
+    own: before a declaration that does not take it, `Decl.followB`) -/
+theorem decl_roundtrip (d : Decl ε) (h : d.WF X) (k : List Tok) (hk : TStop k) (hf : d.followB k = true) :
     ∃ f, runP Γ Δ f gTopItem (d.toks X ++ k) = (.ok k (d.tree X), []) :=
-  decl_rt X hX d h k hk
+  decl_rt X hX d h k hk hf
 
 /-- the file-level loop with some fuel … -/
 theorem top_roundtrip (p : Prog ε) (h : Prog.WF X p) :
@@ -168,19 +170,19 @@ func Beep return Int external 'user32.Beep'
 module aMod
 uses aLib, bLib
 type tName : CString(40)
-type tRec : record
+[packed] type tRec : record
   kind : (red, green = 4) + tMore
   next : .tRec
-endrecord
+endrecord [free (] uses cLib
 type tCmp : func (a : tRec) return Int
 ```
 -/
 private def sample : Prog Ex :=
-  [ .cls (tk Kind.Class "class" 0 0) (tk Kind.Identifier "aFoo" 0 6)
+  [ .cls none (tk Kind.Class "class" 0 0) (tk Kind.Identifier "aFoo" 0 6)
       (some (tk Kind.OBracket "(" 0 11, tk Kind.Identifier "aBar" 0 12, tk Kind.CBracket ")" 0 16)),
     .const (tk Kind.Const "const" 1 0) (tk Kind.Identifier "cMax" 1 6) (tk Kind.Equals "=" 1 11) (tk Kind.NumericLiteral "10" 1 13)
       (some (tk Kind.MultiLang "multiLang" 1 16)),
-    .field none (tk Kind.Identifier "count" 2 0) (tk Kind.Colon ":" 2 6) (.flat (.basic (tk Kind.Identifier "Int" 2 8)))
+    .field none none (tk Kind.Identifier "count" 2 0) (tk Kind.Colon ":" 2 6) (.flat (.basic (tk Kind.Identifier "Int" 2 8)))
       [tk Kind.Private "private" 2 12] (some (tk Kind.Absolute "absolute" 2 20, tk Kind.Identifier "other" 2 29)),
     .proc (tk Kind.Proc "proc" 3 0) (.plain (tk Kind.Identifier "Run" 3 5))
       (some (.cons (tk Kind.OBracket "(" 3 8)
@@ -229,12 +231,13 @@ private def sample : Prog Ex :=
     .func (tk Kind.Func "func" 29 0) (.plain (tk Kind.Identifier "Beep" 29 5)) none (tk Kind.Return "return" 29 10)
       (tk Kind.Identifier "Int" 29 17)
       [.ext (tk Kind.External "external" 29 21) (tk Kind.StringLiteral "user32.Beep" 29 30)] none,
-    .module (tk Kind.Module "module" 30 0) (tk Kind.Identifier "aMod" 30 7),
+    .module none (tk Kind.Module "module" 30 0) (tk Kind.Identifier "aMod" 30 7),
     .uses (tk Kind.Uses "uses" 31 0) (tk Kind.Identifier "aLib" 31 5) [(tk Kind.Comma "," 31 9, tk Kind.Identifier "bLib" 31 11)],
-    .typeD (tk Kind.Type "type" 32 0) (tk Kind.Identifier "tName" 32 5) (tk Kind.Colon ":" 32 11)
+    .typeD none (tk Kind.Type "type" 32 0) (tk Kind.Identifier "tName" 32 5) (tk Kind.Colon ":" 32 11)
       (.flat (.sized (tk Kind.Identifier "CString" 32 13) (tk Kind.OBracket "(" 32 20) (tk Kind.NumericLiteral "40" 32 21)
         (tk Kind.CBracket ")" 32 23))),
-    .typeD (tk Kind.Type "type" 33 0) (tk Kind.Identifier "tRec" 33 5) (tk Kind.Colon ":" 33 10)
+    .typeD (some ⟨tk Kind.OSqrBracket "[" 32 26, [tk Kind.Identifier "packed" 32 27], tk Kind.CSqrBracket "]" 32 33⟩)
+      (tk Kind.Type "type" 33 0) (tk Kind.Identifier "tRec" 33 5) (tk Kind.Colon ":" 33 10)
       (.record (tk Kind.Record "record" 33 12) none
         [⟨tk Kind.Identifier "kind" 34 2, tk Kind.Colon ":" 34 7,
           .composed (.enum (tk Kind.OBracket "(" 34 9) ⟨tk Kind.Identifier "red" 34 10, none⟩
@@ -242,7 +245,9 @@ private def sample : Prog Ex :=
             (tk Kind.CBracket ")" 34 24)) [(tk Kind.Plus "+" 34 26, .basic (tk Kind.Identifier "tMore" 34 28))]⟩,
          ⟨tk Kind.Identifier "next" 35 2, tk Kind.Colon ":" 35 7, .pointer (tk Kind.Dot "." 35 9) (tk Kind.Identifier "tRec" 35 10)⟩]
         (tk Kind.EndRecord "endrecord" 36 0)),
-    .typeD (tk Kind.Type "type" 37 0) (tk Kind.Identifier "tCmp" 37 5) (tk Kind.Colon ":" 37 10)
+    .annD ⟨tk Kind.OSqrBracket "[" 36 10, [tk Kind.Identifier "free" 36 11, tk Kind.OBracket "(" 36 15], tk Kind.CSqrBracket "]" 36 16⟩,
+    .uses (tk Kind.Uses "uses" 36 18) (tk Kind.Identifier "cLib" 36 23) [],
+    .typeD none (tk Kind.Type "type" 37 0) (tk Kind.Identifier "tCmp" 37 5) (tk Kind.Colon ":" 37 10)
       (.funcT (tk Kind.Func "func" 37 12)
         (some (.cons (tk Kind.OBracket "(" 37 16)
           ⟨none, tk Kind.Identifier "a" 37 17, tk Kind.Colon ":" 37 19, .basic (tk Kind.Identifier "tRec" 37 21)⟩ []
